@@ -108,6 +108,15 @@ Definition run_helper {A} (hc : helper_code) (payload : list A) (len : N)
   | None => HOk None (len + N.of_nat (hc_query_plus hc))
   end.
 
+(* the size-query convention itself, as an executable specification (independent of the code
+   read from internal.h): NULL buffer -> required size; too small -> error; else copy *)
+Definition spec_helper {A} (msg : string) (payload : list A) (buf : option (list A)) (size : N) : hres A :=
+  let need := N.of_nat (List.length payload) in
+  match buf with
+  | None => HOk None need
+  | Some contents => if N.ltb size need then HThrow msg else HOk (Some (overwrite payload contents)) size
+  end.
+
 Definition NUL : ascii := Ascii.zero.
 Definition copy_vector_to_array {A} (hc : helper_code) (src : list A) buf size :=
   run_helper hc src (N.of_nat (List.length src)) buf size.
